@@ -315,11 +315,87 @@ def effects(repo):
                              "loads": [" ".join(x for x in e if x) for e in progs["loads"]]}}
 
 
+_MUTATORS = {"append", "pop", "update", "clear", "setdefault", "extend", "insert", "remove", "popitem",
+             "sort", "reverse", "add", "discard", "__setattr__", "__setitem__", "__delitem__", "__delattr__"}
+
+
+def _fn_locals(fn):
+    params = {a.arg for a in fn.args.posonlyargs + fn.args.args + fn.args.kwonlyargs}
+    if fn.args.vararg:
+        params.add(fn.args.vararg.arg)
+    if fn.args.kwarg:
+        params.add(fn.args.kwarg.arg)
+    fresh = set()
+    for n in ast.walk(fn):
+        # a name is "fresh" when every binding of it in the function is a new object: a literal container,
+        # a call result, or a tuple-unpacked call result; parameters and aliases of them are not
+        if isinstance(n, (ast.Assign, ast.AnnAssign)):
+            targets = n.targets if isinstance(n, ast.Assign) else [n.target]
+            val = n.value
+            for t in targets:
+                names = [t] if isinstance(t, ast.Name) else (list(t.elts) if isinstance(t, (ast.Tuple, ast.List)) else [])
+                for nm in names:
+                    if isinstance(nm, ast.Name) and isinstance(val, (ast.List, ast.Dict, ast.Set, ast.ListComp, ast.DictComp, ast.Call, ast.BinOp, ast.Constant, ast.JoinedStr)):
+                        fresh.add(nm.id)
+    return params, fresh - params
+
+
+def _base_name(node):
+    while isinstance(node, (ast.Attribute, ast.Subscript)):
+        node = node.value
+    return node.id if isinstance(node, ast.Name) else None
+
+
+def stub_effects(repo):
+    """Observable side effects written in cincoconfig/stubs.py: output calls and writes through anything that
+    is not a fresh local of the function (parameters are the schema / configuration / fields)."""
+    mod = _parse(repo, "stubs.py")
+    effs = []
+    fns = [n for n in ast.walk(mod) if isinstance(n, (ast.FunctionDef, ast.AsyncFunctionDef))]
+    if not any(f.name == "generate_stub" for f in fns):
+        raise Unknown("stubs.generate_stub not found")
+    for fn in fns:
+        params, fresh = _fn_locals(fn)
+        for n in ast.walk(fn):
+            if isinstance(n, ast.Call):
+                f = n.func
+                if isinstance(f, ast.Name) and f.id in ("print", "pprint", "input", "breakpoint"):
+                    effs.append(("stdout", "%s:%s" % (fn.name, f.id)))
+                elif isinstance(f, ast.Name) and f.id in ("setattr", "delattr", "open", "exec", "eval"):
+                    effs.append(("schemaWrite", "%s:%s" % (fn.name, f.id)))
+                elif isinstance(f, ast.Attribute) and f.attr in ("write", "writelines") :
+                    effs.append(("stdout", "%s:.%s" % (fn.name, f.attr)))
+                elif isinstance(f, ast.Attribute) and _base_name(f) in ("logging", "logger", "log", "warnings", "sys", "os"):
+                    effs.append(("stdout", "%s:%s.%s" % (fn.name, _base_name(f), f.attr)))
+                elif isinstance(f, ast.Attribute) and f.attr in _MUTATORS:
+                    b = _base_name(f.value)
+                    if not (isinstance(f.value, ast.Name) and b in fresh):
+                        effs.append(("schemaWrite", "%s:%s.%s" % (fn.name, b, f.attr)))
+            elif isinstance(n, (ast.Assign, ast.AugAssign, ast.AnnAssign, ast.Delete)):
+                targets = n.targets if isinstance(n, (ast.Assign, ast.Delete)) else [n.target]
+                for t in targets:
+                    for tt in (t.elts if isinstance(t, (ast.Tuple, ast.List)) else [t]):
+                        if isinstance(tt, (ast.Attribute, ast.Subscript)):
+                            b = _base_name(tt)
+                            if not (isinstance(tt.value, ast.Name) and b in fresh):
+                                effs.append(("schemaWrite", "%s:%s" % (fn.name, ast.unparse(tt))))
+            elif isinstance(n, (ast.Global, ast.Nonlocal)):
+                effs.append(("schemaWrite", "%s:global" % fn.name))
+    t = ["import Cinco.Stub.Gen", "/- GENERATED by harness/extract.py from /repo on every run — do not edit. -/",
+         "namespace Cinco.Generated", "open Cinco.Stub", "",
+         "/-- output calls and writes through non-local objects found in cincoconfig/stubs.py -/",
+         "def stubEffects : List Effect := [%s]" % ", ".join(".%s %s" % (k, lstr(w)) for k, w in effs),
+         "", "end Cinco.Generated"]
+    changed = _write("StubEffects.lean", "\n".join(t) + "\n")
+    return {"StubEffects.lean": {"changed": changed, "effects": ["%s %s" % e for e in effs]}}
+
+
 def run(repo):
     notes = {}
     notes.update(tables(repo))
     notes.update(overrides(repo))
     notes.update(effects(repo))
+    notes.update(stub_effects(repo))
     return notes
 
 
